@@ -233,11 +233,19 @@ func (its *jsonPrimitive) getTargetByPaths(paths []string) (jsonType, errors.Ord
 	return node, nil
 }
 
+var jsonPointerUnescaper = strings.NewReplacer("~1", "/", "~0", "~")
+
 func (its *jsonPrimitive) getTargetFromPatch(path string) (jsonType, string, errors.OrdaError) {
 	paths := strings.Split(path, "/")
 
 	if len(paths) < 1 {
 		return nil, "", errors.DatatypeInvalidPatch.New(its.common.L(), "incorrect path: %v", path)
+	}
+	if len(paths) < 2 {
+		return nil, "", errors.DatatypeInvalidPatch.New(its.common.L(), "incorrect path: %v", path)
+	}
+	for i, p := range paths { // reference tokens of a JSON pointer are escaped (RFC 6901)
+		paths[i] = jsonPointerUnescaper.Replace(p)
 	}
 	key := paths[len(paths)-1]
 	paths = paths[1 : len(paths)-1]
